@@ -179,7 +179,7 @@ def run_sched_part(chk, pid, exe, scale):
         chk.cov['evaluations'] += n_first
         # racing first uses of one fixed offset (never loaded before): all threads and a later load get one zone
         rl = ['racefixed %d %d %d' % (kk, 120 if scale == 'quick' else 1500, 100 + 2000 * j) for j, kk in enumerate((2, 4, 8, 16))]
-        rlo = run_lines(exe, rl, timeout=600)
+        rlo = run_lines(exe, rl, timeout=1200, per_line_timeout=100)
         for l, o in zip(rl, rlo):
             if o != 'racefixed bad=0':
                 chk.report('threads that ask for the same new fixed-offset zone at once do not all get one zone (`%s`): %s' % (l, o), {'op': l, 'implementation': o}, sig='racefixed')
@@ -209,7 +209,7 @@ def run_C13(chk):
     # ThreadSanitizer: up to 64 threads mixing loads with const operations on shared zones
     texe = chk.harness('tsan')
     if texe:
-        env = dict(os.environ); env.update({'TZDIR': os.path.join(REPO, 'testdata/zoneinfo'), 'TSAN_OPTIONS': 'halt_on_error=0:exitcode=0:report_signal_unsafe=0'})
+        env = dict(os.environ); env.update({'TZDIR': os.path.join(REPO, 'testdata/zoneinfo'), 'TZ': 'America/New_York', 'TSAN_OPTIONS': 'halt_on_error=0:exitcode=0:report_signal_unsafe=0'})
         runs = [(4, 4000), (16, 1500), (64, 400)] if scale == 'quick' else [(4, 40000), (16, 20000), (64, 8000), (64, 8000), (33, 10000)]
         for r, (k, iters) in enumerate(runs):
             line = 'stress %d %d %d' % (k, iters, chk.seed * 100 + r)
